@@ -24,12 +24,15 @@
 static std::atomic<int> failAccepts(0);
 static std::atomic<int> failedAccepts(0);
 static void recordFailedAccept();
+static void recordAccept();
 extern "C" int accept(int fd, struct sockaddr* a, socklen_t* l)
 {
 	typedef int (*Fn)(int, struct sockaddr*, socklen_t*);
 	static Fn real = (Fn)dlsym(RTLD_NEXT, "accept");
 	if (failAccepts.load() > 0 && failAccepts.fetch_sub(1) > 0) { failedAccepts++; recordFailedAccept(); errno = EMFILE; return -1; }
-	return real(fd, a, l);
+	int r = real(fd, a, l);
+	if (r >= 0) recordAccept();     // event a<k> of the trace: a connection was really taken from the listen queue
+	return r;
 }
 using namespace asl;
 using namespace vh;
@@ -78,6 +81,7 @@ void hook(int kind, const volatile void* addr)
 
 }
 static void recordFailedAccept() { hook(40, 0); }   // event F of the trace: the model's `acceptFail`
+static void recordAccept() { hook(41, 0); }
 namespace {
 
 struct TestServer : public SocketServer
@@ -249,7 +253,7 @@ static std::string runScenario(bool seq, bool unixSock, bool both, int nclients,
 	// every connection the accept loop took from the listening socket (hook 20) must have been passed to serve() once,
 	// whether or not its client ever sent anything
 	int acceptedAll = 0;
-	for (size_t i = 0; i < tr.size(); i++) if (tr[i].kind == 20) acceptedAll++;
+	for (size_t i = 0; i < tr.size(); i++) if (tr[i].kind == 41) acceptedAll++;   // successful accept() calls (interposed), not hook 20
 #ifdef ASL_VERIF
 	int allServed = (serveCalls == acceptedAll) ? 1 : 0;
 #else
@@ -262,13 +266,14 @@ static std::string runScenario(bool seq, bool unixSock, bool both, int nclients,
 	std::map<unsigned long, int> connOfThread;        // handler thread -> connection index
 	int accepted = 0, current = -1;
 	unsigned long accTh = 0;
-	for (size_t i = 0; i < tr.size(); i++) if (tr[i].kind == 20 || tr[i].kind == 23 || tr[i].kind == 24) { accTh = tr[i].th; break; }
+	for (size_t i = 0; i < tr.size(); i++) if (tr[i].kind == 41 || tr[i].kind == 40 || tr[i].kind == 23 || tr[i].kind == 24) { accTh = tr[i].th; break; }
 	std::string t;
 	for (size_t i = 0; i < tr.size(); i++) {
 		const Ev& e = tr[i];
 		std::string ev;
 		switch (e.kind) {
-		case 20: current = accepted++; ev = "a" + str(current); break;
+		case 41: current = accepted++; ev = "a" + str(current); break;   // accept() returned a connection
+		case 20: break;                                                  // (the loop's own hook: after its test of the handle)
 		case 22: handlerOf[e.addr] = current; break;
 		case 1: if (e.addr == cntAddr) ev = "n"; break;
 		case 2: if (e.addr == cntAddr) { int c = seq ? current : (connOfThread.count(e.th) ? connOfThread[e.th] : -1); ev = "d" + str(c); } break;
